@@ -72,7 +72,7 @@ def tsan(core, work, seed, jobs):
     env = dict(core.ENV, RUSTFLAGS="-Zsanitizer=thread")
     rc, log = _run(["cargo", "+nightly", "build", "-q", "-Zbuild-std", "-p", "hx", "--bin", "stress", "--bin", "hostile", "--bin", "progsim",
                     "--target", "x86_64-unknown-linux-gnu", "--target-dir", TSAN_DIR,
-                    "--config", 'source.vendored.directory="%s"' % os.path.join(core.VERIF, "vendor-std")], cwd=core.HARNESS, env=env)
+                    "--config", 'source.vendored.directory="/verif/vendor-std"'], cwd=core.HARNESS, env=env)
     if rc != 0:
         inc.append("ThreadSanitizer build failed: " + log[-300:].replace("\n", " | "))
         return out, viol, inc
